@@ -307,6 +307,13 @@ class Executor(object):
         self._undecided("assignment target %s" % type(tgt).__name__)
 
     def store_attr(self, st, obj, attr, v):
+        if attr in ("temp", "perm"):
+            if isinstance(v, _EmptyDict) and attr == "temp":
+                m = st.heap.ensure("temp#has")
+                st.heap.maps["temp#has"] = m.store(obj.term, z3.K(dsl.Str, z3.BoolVal(False)))
+                return
+            st.heap.set(obj, "perm_ver", dsl.fresh_int("perm_ver"))
+            return
         t = self.schema.type_of(attr)
         if t is None:
             self._undecided("attribute %s not in schema (store)" % attr)
@@ -513,7 +520,9 @@ class Executor(object):
     # ------------------------------------------------------------------ loops
     def _next_loop_spec(self, node):
         fn = self.cur_func[-1]
-        k = self.loop_counter[-1].setdefault(id(node), len(self.loop_counter[-1]))
+        k = self.loop_counter[-1].get(id(node))
+        if k is None:
+            self._undecided("loop not indexed")
         spec = self.loop_specs.get((fn, k))
         if spec is None:
             self._undecided("loop #%d of %s has no invariant" % (k, fn))
@@ -656,6 +665,10 @@ class Executor(object):
                 return r
         if isinstance(op, ast.BitOr) and self._is_boolish(a) and self._is_boolish(b):
             return [(st, Or(self.truth(st, a), self.truth(st, b)))]
+        if isinstance(op, ast.BitAnd) and self._is_boolish(a) and self._is_boolish(b):
+            return [(st, And(self.truth(st, a), self.truth(st, b)))]
+        if isinstance(op, ast.BitXor) and self._is_boolish(a) and self._is_boolish(b):
+            return [(st, Not(dsl.Iff(self.truth(st, a), self.truth(st, b))))]
         a, b = self._num(st, a), self._num(st, b)
         if isinstance(op, ast.Add):
             return [(st, a + b)]
@@ -672,6 +685,16 @@ class Executor(object):
             if not (nzs is True or (is_z3(nzs) and z3.is_true(nzs))):
                 st.oblige("%s/division-nonzero" % self.cur_func[-1], Or(b.nan, b.ne(0)) if b.nan is not False else b.ne(0), kind="side", info={"line": None})
             return [(st, a / b)]
+        if isinstance(op, ast.Mod) and a.is_int and b.is_int:
+            # Python %: result takes the sign of the divisor; zero divisor raises
+            st.oblige("%s/modulo-nonzero" % self.cur_func[-1], b.ne(0), kind="side", props=("C10",))
+            pos = a.r % b.r
+            neg = -((-a.r) % (-b.r))
+            return [(st, Num(z3.If(b.r > 0, pos, neg), a._nan_or(b), True))]
+        if isinstance(op, ast.FloorDiv) and a.is_int and b.is_int:
+            st.oblige("%s/division-nonzero" % self.cur_func[-1], b.ne(0), kind="side", props=("C10",))
+            pos = a.r / b.r
+            return [(st, Num(z3.If(b.r > 0, pos, (-a.r) / (-b.r)), a._nan_or(b), True))]
         self._undecided("binary operator %s" % type(op).__name__)
 
     def _is_boolish(self, v):
@@ -1162,8 +1185,13 @@ class Executor(object):
                 bound[n] = ("default", defaults[di])
         return names, bound
 
-    def call_function(self, st, fi, recv, pos, kw, exact=False, via_property=False):
+    def call_function(self, st, fi, recv, pos, kw, exact=False, via_property=False, counted=False):
         q = fi.qualname
+        cc = getattr(self, "count_calls", None)
+        if cc and recv is not None and fi.name in cc and not counted and len(self.cur_func) == 1:
+            fld = cc[fi.name]
+            st.heap.set(recv, fld, st.heap.get(recv, fld) + 1)
+            counted = True
         names, bound = self.bind_args(fi, recv, pos, kw)
         # evaluate defaults
         for n in names:
@@ -1187,16 +1215,16 @@ class Executor(object):
                     out = []
                     for (s1, r1) in self.split_on_class(st, recv, groups, residual=fi.cls):
                         if r1.cls == recv.cls:
-                            out.extend(self.call_function(s1, fi, r1, pos, kw, exact=True))
+                            out.extend(self.call_function(s1, fi, r1, pos, kw, exact=True, counted=counted))
                         else:
                             f1 = self.prog.lookup_method(r1.cls, fi.name)
-                            out.extend(self.call_function(s1, f1, r1, pos, kw))
+                            out.extend(self.call_function(s1, f1, r1, pos, kw, counted=counted))
                     return out
         c = self.contracts.get(target_q)
         if c is not None and not (q in self.inline):
             self.stats.contracts_used.add(target_q)
             return c.apply(self, st, recv, [bound[n] for n in names], exact=exact)
-        if q in self.inline or fi.nstmts() <= 0 or (via_property and fi.nstmts() <= 6):
+        if q in self.inline or fi.nstmts() <= 0 or (via_property and fi.nstmts() <= 6) or all(isinstance(b, ast.Pass) for b in fi.body()):
             return self.inline_call(st, fi, recv, names, bound)
         self._undecided("call to %s: no contract and not inlinable" % q)
 
@@ -1212,7 +1240,7 @@ class Executor(object):
             loc[n] = bound[n]
         st.locals = loc
         self.cur_func.append(fi.qualname)
-        self.loop_counter.append({})
+        self.loop_counter.append(self.loop_ordinals(fi))
         try:
             res = self.exec_block(fi.body(), st)
         finally:
@@ -1231,6 +1259,12 @@ class Executor(object):
                 self._undecided("break/continue escaping function")
         return out
 
+    def loop_ordinals(self, fi):
+        """loops (for / while / side-effecting comprehensions) of a function numbered in source order"""
+        nodes = [n for n in ast.walk(fi.node) if isinstance(n, (ast.For, ast.While, ast.ListComp))]
+        nodes.sort(key=lambda n: (n.lineno, n.col_offset))
+        return {id(n): k for k, n in enumerate(nodes)}
+
     # ---- entry point
     def run_function(self, fi, st, recv, argvals):
         """execute the body of fi from state st with receiver and argument values bound"""
@@ -1244,7 +1278,7 @@ class Executor(object):
             loc[n] = v
         st.locals = loc
         self.cur_func.append(fi.qualname)
-        self.loop_counter.append({})
+        self.loop_counter.append(self.loop_ordinals(fi))
         try:
             res = self.exec_block(fi.body(), st)
         finally:
@@ -1258,6 +1292,14 @@ class Executor(object):
         if h:
             return h(e, st)
         self._undecided("list comprehension")
+
+    def expr_Dict(self, e, st):
+        if not e.keys:
+            return [(st, _EmptyDict())]
+        h = getattr(self, "ext_dict", None)
+        if h:
+            return h(e, st)
+        self._undecided("dict literal")
 
     def expr_JoinedStr(self, e, st):
         return [(st, "<fmt>")]
@@ -1279,6 +1321,10 @@ class _Raised(object):
 
 
 class _SliceAll(object):
+    pass
+
+
+class _EmptyDict(object):
     pass
 
 
